@@ -215,4 +215,7 @@ func init() {
 		"	if errors.Is(accumulatedErr, xcontrol.ErrUnauthorized) {\n		w.hasUncommittedData = false\n	}\n	return fr, accumulatedErr", "	if idxUnauthorized {\n		w.hasUncommittedData = false\n	}\n	return fr, accumulatedErr", "C05.R4.rejected")
 	mut("C04", "the end pointer is re-validated only when the start moved", "cesium/internal/domain/delete.go",
 		"			startDomain += 1\n		}\n	}\n	if db.idx.mu.pointers[endDomain] != end {\n		endDomain, _ = db.idx.unprotectedSearch(end.TimeRange)\n	}", "			startDomain += 1\n		}\n		if db.idx.mu.pointers[endDomain] != end {\n			endDomain, _ = db.idx.unprotectedSearch(end.TimeRange)\n		}\n	}", "C04.R2.atomic")
+
+	mut("C02", "a writer whose last commit rolled over skips the flush", "cesium/internal/domain/writer.go",
+		"	if *w.EnableAutoCommit && w.AutoIndexPersistInterval > 0 {\n		w.idx.mu.RLock()", "	if w.prevCommit.IsZero() {\n		return nil\n	}\n	if *w.EnableAutoCommit && w.AutoIndexPersistInterval > 0 {\n		w.idx.mu.RLock()", "C02.R6.close")
 }
